@@ -179,15 +179,62 @@ var miscValues = []string{"red", "#123", "rgb(1, 2, 3)", "currentColor", "transp
 	"2 / 3", "left top", "center", "target-counter(attr(href), page)", "string(x)", "content()", "symbols(cyclic \"a\" \"b\")",
 	"decimal", "square", "\"<\" \">\"", "5 2 2", "100 200", "1.5", "2em 1ex", "0 0"}
 
+// font families: docfont / docfont2 are declared by @font-face rules of the document (each maps to
+// Ahem or weasyprint.otf, chosen per document); Ahem / weasyprint are the installed families
+var fontFamilies = []string{"docfont", "docfont", "docfont2", "Ahem", "weasyprint", "serif", "nosuch, docfont", "docfont2, Ahem", "monospace", "docfont, docfont2"}
+
+var marksValues = []string{"crop", "cross", "crop", "cross", "crop cross", "none", "cross crop"}
+
+var transformValues = []string{"translate(2em, 1em)", "translate(1ex, 2ch)", "translate(10%, 3rem) rotate(10deg)", "translate(1.5em)",
+	"scale(2) translate(3ch, 1em)", "none", "rotate(45deg)", "translate(4px, 2pt)"}
+
 var fontWeights = []string{"normal", "bold", "bolder", "lighter", "100", "200", "300", "400", "500", "600", "700", "800", "900", "350"}
+
+var absUnits = []string{"px", "px", "pt", "pc", "in", "cm", "mm", "q", "%", ""}
+var fontRelUnits = []string{"em", "rem", "ex", "ch", "ex", "ch"}
 
 func randLength(r *vlib.Rng) string {
 	n := vlib.Pick(r, lengthNums)
-	u := vlib.Pick(r, lengthUnits[:11])
-	if r.Chance(1, 12) {
+	var u string
+	switch k := r.Intn(20); {
+	case k < 10:
+		u = vlib.Pick(r, absUnits)
+	case k < 18:
+		u = vlib.Pick(r, fontRelUnits) // relative to the (own / parent / root) font size or to the font itself
+	default:
 		u = vlib.Pick(r, lengthUnits)
 	}
 	return n + u
+}
+
+// a length relative to the font size / the font, never zero
+func relLength(r *vlib.Rng) string {
+	return vlib.Pick(r, []string{"1", "2", "3", "10", "0.5", "1.5", "2.25", "7.3", "12"}) + vlib.Pick(r, fontRelUnits)
+}
+
+// properties whose computed value is a length made absolute (length, pixelLength, borderWidth, ...)
+var relProps = []string{"width", "height", "margin-left", "margin-top", "padding-top", "padding-left", "text-indent",
+	"letter-spacing", "word-spacing", "min-width", "max-width", "top", "left", "column-gap", "row-gap", "column-width",
+	"flex-basis", "tab-size", "line-height", "vertical-align", "border-top-width", "outline-width", "outline-offset",
+	"hyphenate-limit-zone", "font-size", "font-size"}
+
+// declarations with font-relative values, for rules shared by several elements
+func relDecls(r *vlib.Rng) string {
+	var parts []string
+	for i, n := 0, r.Range(1, 4); i < n; i++ {
+		switch r.Intn(8) {
+		case 0:
+			parts = append(parts, "transform:"+vlib.Pick(r, transformValues[:5]))
+		case 1:
+			parts = append(parts, vlib.Pick(r, []string{"border-spacing", "transform-origin", "border-top-left-radius"})+":"+relLength(r)+" "+relLength(r))
+		default:
+			parts = append(parts, vlib.Pick(r, relProps)+":"+relLength(r))
+		}
+	}
+	if r.Chance(1, 3) {
+		parts = append(parts, "border-top-style:solid;outline-style:dotted")
+	}
+	return strings.Join(parts, ";")
 }
 
 func candidate(r *vlib.Rng, p pr.KnownProp) string {
@@ -199,6 +246,12 @@ func candidate(r *vlib.Rng, p pr.KnownProp) string {
 		return vlib.Pick(r, fontWeights)
 	case pr.PDisplay:
 		return vlib.Pick(r, displayValues)
+	case pr.PFontFamily:
+		return vlib.Pick(r, fontFamilies)
+	case pr.PMarks:
+		return vlib.Pick(r, marksValues)
+	case pr.PTransform:
+		return vlib.Pick(r, transformValues)
 	}
 	switch pr.InitialValues[p].(type) {
 	case pr.DimOrS:
@@ -277,6 +330,30 @@ var hotProps = []pr.KnownProp{
 	pr.PWordSpacing, pr.PVerticalAlign, pr.PTabSize, pr.PTextDecorationLine, pr.PTextDecorationColor, pr.PTextDecorationStyle,
 	pr.PPage, pr.PBreakBefore, pr.PBorderSpacing, pr.PColumnGap, pr.PMaxWidth, pr.PBorderTopLeftRadius, pr.PColor, pr.PSize,
 	pr.PBleedTop, pr.PTransformOrigin, pr.PHyphenateLimitZone, pr.PFlexBasis, pr.PColumnWidth, pr.PRowGap, pr.PTop,
+	pr.PFontFamily, pr.PFontFamily, pr.PHeight, pr.PTransform, pr.PMarks, pr.PBleedLeft, pr.PFontStyle, pr.PFontStretch,
+}
+
+// what a page context is asked for
+var pageProps = []pr.KnownProp{pr.PBleedTop, pr.PBleedLeft, pr.PBleedRight, pr.PBleedBottom, pr.PMarks, pr.PSize,
+	pr.PMarginTop, pr.PFontSize, pr.PWidth}
+
+// declarations of an @page rule that the page-specific computers look at
+func pageDecls(r *vlib.Rng) string {
+	var parts []string
+	if r.Bool() {
+		parts = append(parts, "marks:"+vlib.Pick(r, marksValues))
+	}
+	if r.Chance(1, 4) {
+		parts = append(parts, vlib.Pick(r, []string{"bleed", "bleed-left", "bleed-top", "bleed-right", "bleed-bottom"})+":"+
+			vlib.Pick(r, []string{"auto", "initial", "inherit", "2pt", "1ex", "0", "3mm", "0.5em"}))
+	}
+	if r.Chance(1, 4) {
+		parts = append(parts, "size:"+vlib.Pick(r, []string{"a5", "10cm 20cm", "20em 30em", "300px", "a4 landscape"}))
+	}
+	if r.Chance(1, 4) {
+		parts = append(parts, "font-size:"+vlib.Pick(r, []string{"20px", "2em", "1.5rem", "10pt", "3ex"}))
+	}
+	return strings.Join(parts, ";")
 }
 
 func randProp(r *vlib.Rng) pr.KnownProp {
@@ -314,8 +391,17 @@ var tags = []string{"x-a", "x-b", "x-c", "div", "p", "span", "ul", "ol", "li", "
 	"caption", "dl", "dd", "section", "article", "code", "address", "fieldset", "hr"}
 
 type docSrc struct {
-	HTML  string
-	pages []utils.PageElement
+	HTML    string // the document under test
+	Prelude string // the same document with the two @font-face sources exchanged (built first, in the same process)
+	Fonts   string
+	pages   []utils.PageElement
+}
+
+var fontFiles = []string{"AHEM____.TTF", "weasyprint.otf"}
+
+func fontFaces(a, b int) string {
+	return fmt.Sprintf("@font-face{font-family:docfont;src:url(file://%s/%s)}\n@font-face{font-family:docfont2;src:url(file://%s/%s)}\n",
+		render.FontDir, fontFiles[a], render.FontDir, fontFiles[b])
 }
 
 func genDoc(r *vlib.Rng) docSrc {
@@ -327,7 +413,18 @@ func genDoc(r *vlib.Rng) docSrc {
 		tag := vlib.Pick(r, tags)
 		id++
 		my := id
-		fmt.Fprintf(&sb, `<%s id="n%d" title="t%d" style="%s">`, tag, my, my, strings.ReplaceAll(randDecls(r, maxDecl), `"`, "&quot;"))
+		style := randDecls(r, maxDecl)
+		if r.Chance(2, 5) { // elements sharing a rule get different font sizes
+			style += ";font-size:" + vlib.Pick(r, []string{"10px", "20px", "40px", "2em", "0.5em", "150%", "larger", "1.5rem", "2ex", "3ch", "12pt", "x-large"})
+		}
+		class := ""
+		if r.Bool() {
+			class = fmt.Sprintf(` class="k%d"`, r.Intn(4))
+			if r.Chance(1, 3) {
+				class = fmt.Sprintf(` class="k%d k%d"`, r.Intn(4), r.Intn(4))
+			}
+		}
+		fmt.Fprintf(&sb, `<%s id="n%d" title="t%d"%s style="%s">`, tag, my, my, class, strings.ReplaceAll(style, `"`, "&quot;"))
 		for _, ps := range []string{"before", "after", "marker", "first-line", "first-letter"} {
 			if r.Chance(1, 10) {
 				fmt.Fprintf(&css, "#n%d::%s{%s}\n", my, ps, randDecls(r, maxDecl))
@@ -355,29 +452,52 @@ func genDoc(r *vlib.Rng) docSrc {
 		body.WriteString(sb.String())
 	}
 	// @page rules
-	if r.Chance(2, 3) {
-		fmt.Fprintf(&css, "@page{%s}\n", randDecls(r, maxDecl))
+	if r.Chance(3, 4) {
+		fmt.Fprintf(&css, "@page{%s;%s}\n", pageDecls(r), randDecls(r, maxDecl))
 		if r.Bool() {
-			fmt.Fprintf(&css, "@page :first{%s; @top-left{%s} @bottom-center{%s}}\n", randDecls(r, maxDecl), randDecls(r, maxDecl), randDecls(r, maxDecl))
+			fmt.Fprintf(&css, "@page :first{%s;%s; @top-left{%s} @bottom-center{%s}}\n", pageDecls(r), randDecls(r, maxDecl), randDecls(r, maxDecl), randDecls(r, maxDecl))
 		}
 		if r.Bool() {
-			fmt.Fprintf(&css, "@page foo{%s; @top-right{%s}}\n", randDecls(r, maxDecl), randDecls(r, maxDecl))
+			fmt.Fprintf(&css, "@page foo{%s;%s; @top-right{%s}}\n", pageDecls(r), randDecls(r, maxDecl), randDecls(r, maxDecl))
 		}
+		if r.Chance(1, 3) {
+			fmt.Fprintf(&css, "@page :left{%s}\n", pageDecls(r))
+		}
+	}
+	// class rules shared by several elements (which have different font sizes / fonts): values
+	// relative to the font size or to the font
+	for k := 0; k < 4; k++ {
+		if r.Chance(3, 4) {
+			fmt.Fprintf(&css, ".k%d{%s;%s}\n", k, relDecls(r), randDecls(r, 3))
+		}
+	}
+	if r.Chance(1, 2) {
+		fmt.Fprintf(&css, ".k%d::before{%s}\n", r.Intn(4), relDecls(r))
 	}
 	// a few type selectors so that declarations do not all come from style attributes
 	for i := 0; i < r.Intn(4); i++ {
 		fmt.Fprintf(&css, "%s{%s}\n", vlib.Pick(r, tags), randDecls(r, maxDecl))
 	}
 	rootStyle, bodyStyle := randDecls(r, maxDecl), randDecls(r, maxDecl)
-	doc := fmt.Sprintf(`<html style="%s"><head><style>%s</style></head><body style="%s">%s</body></html>`,
-		strings.ReplaceAll(rootStyle, `"`, "&quot;"), css.String(), strings.ReplaceAll(bodyStyle, `"`, "&quot;"), body.String())
+	if r.Chance(2, 3) {
+		rootStyle += ";font-family:" + vlib.Pick(r, fontFamilies)
+	}
+	if r.Chance(1, 3) {
+		bodyStyle += ";font-family:" + vlib.Pick(r, fontFamilies)
+	}
+	const facesMark = "/*@font-faces@*/"
+	tmpl := fmt.Sprintf(`<html style="%s"><head><style>%s%s</style></head><body style="%s">%s</body></html>`,
+		strings.ReplaceAll(rootStyle, `"`, "&quot;"), facesMark, css.String(), strings.ReplaceAll(bodyStyle, `"`, "&quot;"), body.String())
+	fa, fb := r.Intn(2), r.Intn(2)
+	doc := strings.Replace(tmpl, facesMark, fontFaces(fa, fb), 1)
+	prelude := strings.Replace(tmpl, facesMark, fontFaces(1-fa, 1-fb), 1)
 	pages := []utils.PageElement{
 		{Side: "right", First: true, Index: 0},
 		{Side: "left", Index: 1},
 		{Side: "right", Name: "foo", Index: 2},
 		{Side: "left", Blank: true, Index: 3},
 	}
-	return docSrc{HTML: doc, pages: pages}
+	return docSrc{HTML: doc, Prelude: prelude, Fonts: fmt.Sprintf("docfont=%s docfont2=%s", fontFiles[fa], fontFiles[fb]), pages: pages}
 }
 
 // one style object of the document under test
@@ -387,8 +507,12 @@ type snode struct {
 	anon   bool
 	desc   string
 	decls  []string // Coq terms `D p c`
+	cterms []string // the `c` of decls
 	orc    []string // Coq terms `Orc p v`
 	props  []pr.KnownProp
+	rel    []pr.KnownProp // declared with a value relative to the font size / the font (em, rem, ex, ch)
+	page   bool           // a page context
+	met    string // Coq term of type option metrics
 }
 
 type world struct {
@@ -398,6 +522,7 @@ type world struct {
 	nodes  []*snode
 	index  map[pr.ElementStyle]int
 	in     *interner
+	fonts  text.FontConfiguration
 }
 
 // the text context the layout engine hands to the style computation (font metrics for
@@ -426,7 +551,7 @@ func build(src string) (w *world, err interface{}) {
 	ctx := &textCtx{fonts: render.NewFonts("pango"), hyphen: map[text.HyphenDictKey]hyphen.Hyphener{},
 		struts: map[text.StrutLayoutKey][2]pr.Float{}}
 	sf := tree.GetAllComputedStyles(doc, nil, false, ctx.fonts, nil, &pageRules, nil, false, ctx)
-	return &world{doc: doc, sf: sf, styles: tree.VerifC04Styles(sf), index: map[pr.ElementStyle]int{}}, nil
+	return &world{doc: doc, sf: sf, styles: tree.VerifC04Styles(sf), index: map[pr.ElementStyle]int{}, fonts: ctx.fonts}, nil
 }
 
 func describe(n *html.Node) string {
@@ -475,7 +600,7 @@ func (w *world) cascTerm(style pr.ElementStyle, p pr.KnownProp, v pr.DeclaredVal
 }
 
 func (w *world) addNode(style pr.ElementStyle, parent int, desc string) int {
-	nd := &snode{style: style, parent: parent, desc: desc}
+	nd := &snode{style: style, parent: parent, desc: desc, met: "None"}
 	casc, isComputed := tree.VerifC04Cascaded(style)
 	nd.anon = !isComputed
 	var keys []pr.PropKey
@@ -486,8 +611,13 @@ func (w *world) addNode(style pr.ElementStyle, parent int, desc string) int {
 	}
 	sort.Slice(keys, func(i, j int) bool { return keys[i].KnownProp < keys[j].KnownProp })
 	for _, k := range keys {
-		nd.decls = append(nd.decls, fmt.Sprintf("D %d (%s)", k.KnownProp, w.cascTerm(style, k.KnownProp, casc[k])))
+		ct := w.cascTerm(style, k.KnownProp, casc[k])
+		nd.decls = append(nd.decls, fmt.Sprintf("D %d (%s)", k.KnownProp, ct))
+		nd.cterms = append(nd.cterms, ct)
 		nd.props = append(nd.props, k.KnownProp)
+		if fontRelative(casc[k]) {
+			nd.rel = append(nd.rel, k.KnownProp)
+		}
 	}
 	w.nodes = append(w.nodes, nd)
 	w.index[style] = len(w.nodes) - 1
@@ -537,6 +667,27 @@ func (w *world) collectElements() {
 	}
 }
 
+func relUnit(u pr.Unit) bool { return u == pr.Em || u == pr.Rem || u == pr.Ex || u == pr.Ch }
+
+// does the declared value hold a length relative to the font size or to the font?
+func fontRelative(v pr.DeclaredValue) bool {
+	switch x := v.(type) {
+	case pr.DimOrS:
+		return x.Value != 0 && relUnit(x.Unit)
+	case pr.Point:
+		return relUnit(x[0].Unit) || relUnit(x[1].Unit)
+	case pr.Transforms:
+		for _, t := range x {
+			for _, d := range t.Dimensions {
+				if relUnit(d.Unit) {
+					return true
+				}
+			}
+		}
+	}
+	return false
+}
+
 // adds the page context `pt` and its margin boxes; returns the new node indices
 func (w *world) addPage(pt utils.PageElement) []int {
 	before := map[utils.ElementKey]bool{}
@@ -551,6 +702,7 @@ func (w *world) addPage(pt utils.PageElement) []int {
 	}
 	var out []int
 	pi := w.addNode(w.styles[pageKey], 0, fmt.Sprintf("@page%+v", pt))
+	w.nodes[pi].page = true
 	out = append(out, pi)
 	var mbs []string
 	for k := range w.styles {
@@ -598,6 +750,117 @@ func optN(i int) string {
 	return fmt.Sprintf("(Some %d)", i)
 }
 
+// builds `src` and computes every declared property of every element, pseudo-element and of the
+// first page: whatever outlives this (package-level state) is in place for the document under test
+func runPrelude(src string) {
+	defer func() { recover() }()
+	w, err := build(src)
+	if err != nil {
+		return
+	}
+	w.in = newInterner()
+	w.collectElements()
+	w.addPage(utils.PageElement{Side: "right", First: true, Index: 0})
+	for i, nd := range w.nodes {
+		for _, p := range nd.props {
+			w.get(i, p)
+		}
+		w.get(i, pr.PWidth)
+	}
+}
+
+// 1ex / font-size and 1ch / font-size for the font `style` selects in `fonts` (x-height and
+// advance of "0" at a font size of 1), each measured with a cache of its own
+func measure(style pr.ElementStyle, fonts text.FontConfiguration) (out string) {
+	defer func() {
+		if recover() != nil {
+			out = "None"
+		}
+	}()
+	ex := text.CharacterRatio(style, pr.NewTextRatioCache(), false, fonts)
+	ch := text.CharacterRatio(style, pr.NewTextRatioCache(), true, fonts)
+	if !finite(ex) || !finite(ch) {
+		return "None"
+	}
+	return fmt.Sprintf("(Some (mkMetrics %s %s))", vlib.Q32(float32(ex)), vlib.Q32(float32(ch)))
+}
+
+// tags computed from the cascaded declarations (distribution; matchers of known findings)
+func structuralTags(w *world, tags map[string]bool) {
+	unitsOf := func(v pr.DeclaredValue, f func(u pr.Unit)) {
+		switch x := v.(type) {
+		case pr.DimOrS:
+			if x.Value != 0 {
+				f(x.Unit)
+			}
+		case pr.Point:
+			f(x[0].Unit)
+			f(x[1].Unit)
+		}
+	}
+	type rel struct{ ex, ch bool }
+	doc := rel{}
+	for _, nd := range w.nodes {
+		casc, ok := tree.VerifC04Cascaded(nd.style)
+		if !ok {
+			continue
+		}
+		for k, v := range casc {
+			unitsOf(v, func(u pr.Unit) {
+				switch u {
+				case pr.Ex:
+					doc.ex = true
+				case pr.Ch:
+					doc.ch = true
+				case pr.Em:
+					tags["em"] = true
+				case pr.Rem:
+					tags["rem"] = true
+				}
+			})
+			if k.KnownProp == pr.PMarks {
+				if m, ok := v.(pr.Marks); ok && nd.page {
+					switch {
+					case m.Crop && !m.Cross:
+						tags["page-marks-crop-only"] = true
+					case m.Cross && !m.Crop:
+						tags["page-marks-cross-only"] = true
+					}
+				}
+			}
+			if k.KnownProp == pr.PTransform {
+				tags["transform"] = true
+			}
+		}
+	}
+	if doc.ex {
+		tags["ex"] = true
+	}
+	if doc.ch {
+		tags["ch"] = true
+	}
+	if doc.ex && doc.ch {
+		tags["ex+ch"] = true
+	}
+}
+
+// `G n p r` / `K n ok` of the history refer to these
+func nodeNames(w *world) string {
+	var parts []string
+	for i, nd := range w.nodes {
+		parts = append(parts, fmt.Sprintf("%d=%s", i, nd.desc))
+	}
+	return strings.Join(parts, " ")
+}
+
+var propIndex = func() string {
+	var parts []string
+	for p := pr.KnownProp(1); p < pr.NbProperties; p++ {
+		parts = append(parts, fmt.Sprintf("%d=%s", p, p))
+	}
+	return strings.Join(parts, " ")
+}()
+
 func runDoc(seed uint64, corpus string) vlib.Case {
 	r := vlib.NewRng(seed)
 	var src docSrc
@@ -609,6 +872,14 @@ func runDoc(seed uint64, corpus string) vlib.Case {
 	nOps := vlib.Pick(r, []int{150, 300, 500})
 	if os.Getenv("VERIF_TIER") == "thorough" {
 		nOps *= 2
+	}
+
+	tags := map[string]bool{}
+	// another document first, in the same process: same rules, same family names, but the
+	// @font-face sources exchanged; every declared property of every element is computed
+	if src.Prelude != "" {
+		runPrelude(src.Prelude)
+		tags["prelude"] = true
 	}
 
 	w, err := build(src.HTML)
@@ -626,9 +897,22 @@ func runDoc(seed uint64, corpus string) vlib.Case {
 		ops = append(ops, fmt.Sprintf("K %d true", i))
 	}
 	var late []lateStep
-	tags := map[string]bool{}
 	panics := 0
 	pagesLeft := append([]utils.PageElement{}, src.pages...)
+	var pageNodes []int
+	doGet := func(i, n int, p pr.KnownProp) {
+		res := w.get(n, p)
+		ops = append(ops, fmt.Sprintf("G %d %d (%s)", n, p, res.term))
+		if res.panic != "" {
+			panics++
+			tags["get-panic"] = true
+			if len(trace) < 5 {
+				trace = append(trace, fmt.Sprintf("%s.Get(%s) panicked: %s", w.nodes[n].desc, p, res.panic))
+			}
+		} else if len(trace) < 5 && i%37 == 0 {
+			trace = append(trace, fmt.Sprintf("%s.Get(%s) = %s", w.nodes[n].desc, p, res.term))
+		}
+	}
 	sweepNode := -1
 	var sweepProps []pr.KnownProp
 	for i := 0; i < nOps; i++ {
@@ -644,12 +928,20 @@ func runDoc(seed uint64, corpus string) vlib.Case {
 						tags["page-construction-panic"] = true
 					}
 				}()
-				for _, ni := range w.addPage(pt) {
+				added := w.addPage(pt)
+				for _, ni := range added {
 					ops = append(ops, fmt.Sprintf("K %d true", ni))
 					tags["page"] = true
 				}
 				ptc := pt
 				late = append(late, lateStep{page: &ptc})
+				// what the page layout asks of a new page context, in some order
+				if len(added) > 0 {
+					pageNodes = append(pageNodes, added[0])
+					for j, m := 0, r.Intn(6); j < m; j++ {
+						doGet(1, added[0], vlib.Pick(r, pageProps))
+					}
+				}
 			}()
 		case k < 9:
 			parent := r.Intn(len(w.nodes))
@@ -665,6 +957,9 @@ func runDoc(seed uint64, corpus string) vlib.Case {
 				sweepProps = sweepProps[:len(sweepProps)-1]
 			} else {
 				n = r.Intn(len(w.nodes))
+				if len(pageNodes) > 0 && r.Chance(1, 12) {
+					n = vlib.Pick(r, pageNodes)
+				}
 				if r.Chance(1, 40) { // all properties of one node, in random order
 					sweepNode = n
 					sweepProps = nil
@@ -679,6 +974,10 @@ func runDoc(seed uint64, corpus string) vlib.Case {
 				}
 				// a property declared on the node or on one of its ancestors, else any
 				switch c := r.Intn(10); {
+				case w.nodes[n].page && c < 5:
+					p = vlib.Pick(r, pageProps)
+				case c >= 8 && len(w.nodes[n].rel) > 0:
+					p = vlib.Pick(r, w.nodes[n].rel)
 				case c < 4:
 					m := n
 					for hops := r.Intn(4); hops > 0 && w.nodes[m].parent >= 0; hops-- {
@@ -693,17 +992,7 @@ func runDoc(seed uint64, corpus string) vlib.Case {
 					p = randProp(r)
 				}
 			}
-			res := w.get(n, p)
-			ops = append(ops, fmt.Sprintf("G %d %d (%s)", n, p, res.term))
-			if res.panic != "" {
-				panics++
-				tags["get-panic"] = true
-				if len(trace) < 5 {
-					trace = append(trace, fmt.Sprintf("%s.Get(%s) panicked: %s", w.nodes[n].desc, p, res.panic))
-				}
-			} else if len(trace) < 5 && i%37 == 0 {
-				trace = append(trace, fmt.Sprintf("%s.Get(%s) = %s", w.nodes[n].desc, p, res.term))
-			}
+			doGet(i, n, p)
 		}
 	}
 
@@ -731,6 +1020,12 @@ func runDoc(seed uint64, corpus string) vlib.Case {
 			}()
 		}
 		if okShadow && len(sh.nodes) == len(w.nodes) {
+			// font metrics of the font each style selects: measured on the copy, with no cache at all
+			for i, nd := range w.nodes {
+				if !nd.anon {
+					nd.met = measure(sh.nodes[i].style, sh.fonts)
+				}
+			}
 			for i, nd := range w.nodes {
 				casc, ok := tree.VerifC04Cascaded(nd.style)
 				if !ok {
@@ -754,6 +1049,26 @@ func runDoc(seed uint64, corpus string) vlib.Case {
 		}
 	}
 
+	// the cascaded declarations are the model's (constant) input: read them again
+	var changed, changedDesc []string
+	for i, nd := range w.nodes {
+		casc, ok := tree.VerifC04Cascaded(nd.style)
+		if !ok {
+			continue
+		}
+		for j, p := range nd.props {
+			after := w.cascTerm(nd.style, p, casc[p.Key()])
+			if after != nd.cterms[j] {
+				changed = append(changed, fmt.Sprintf("DChg %d %d (%s) (%s)", i, p, nd.cterms[j], after))
+				if len(changedDesc) < 5 {
+					changedDesc = append(changedDesc, fmt.Sprintf("%s: declared %s is now %#v", nd.desc, p, casc[p.Key()]))
+				}
+				tags["declared-value-mutated"] = true
+				tags["mutated:"+p.String()] = true
+			}
+		}
+	}
+
 	var nodeTerms []string
 	nDecl := 0
 	for _, nd := range w.nodes {
@@ -761,9 +1076,13 @@ func runDoc(seed uint64, corpus string) vlib.Case {
 		if nd.anon {
 			kind = "KAnon"
 		}
-		nodeTerms = append(nodeTerms, fmt.Sprintf("mkNode %s %s %s %s", optN(nd.parent), kind, vlib.List(nd.decls), vlib.List(nd.orc)))
+		nodeTerms = append(nodeTerms, fmt.Sprintf("mkNode %s %s %s %s %s", optN(nd.parent), kind, vlib.List(nd.decls), vlib.List(nd.orc), nd.met))
 		nDecl += len(nd.decls)
+		if nd.met != "None" {
+			tags["metrics"] = true
+		}
 	}
+	structuralTags(w, tags)
 	if w.in.unstable {
 		tags["unstable-print"] = true
 	}
@@ -777,9 +1096,11 @@ func runDoc(seed uint64, corpus string) vlib.Case {
 		kind = "corpus"
 	}
 	return vlib.Case{Kind: kind,
-		Coq: fmt.Sprintf("CDoc %s %s", vlib.List(nodeTerms), vlib.List(ops)),
-		Desc: map[string]interface{}{"html": src.HTML, "nodes": len(w.nodes), "declarations": nDecl, "ops": len(ops),
-			"panics": panics, "sample": trace},
+		Coq: fmt.Sprintf("CDoc %s %s %s", vlib.List(nodeTerms), vlib.List(ops), vlib.List(changed)),
+		Desc: map[string]interface{}{"html": src.HTML, "built_before_in_the_same_process": src.Prelude, "fonts": src.Fonts,
+			"node_index": nodeNames(w), "property_index": propIndex,
+			"nodes": len(w.nodes), "declarations": nDecl, "ops": len(ops),
+			"panics": panics, "sample": trace, "declared_values_modified": changedDesc},
 		Tags: tagList, Nontrivial: nDecl > 0, Key: fmt.Sprintf("%d/%s", seed, corpus)}
 }
 
@@ -839,6 +1160,34 @@ func tableCases(w *vlib.Writer) {
 	w.Add(vlib.Case{Kind: "tables", Coq: "CTables " + vlib.List(entries), Desc: desc, Nontrivial: true, Key: "tables"})
 }
 
+// ---------------------------------------------------------------- the ex / ch ratio cache
+
+// random Set / Get sequences on a pr.TextRatioCache (font description keys, both units)
+func ratioCases(w *vlib.Writer, r *vlib.Rng) {
+	keys := []string{"", "a", "b", "docfont", "docfont|400|normal", "docfont|700|normal", "Ahem", "ahem"}
+	ratios := []pr.Float{0.8, 1, 0.7998, 0.5, 0.44, 0.6, 0}
+	for c := 0; c < 12; c++ {
+		cache := pr.NewTextRatioCache()
+		var ops, trace []string
+		for i, n := 0, r.Range(10, 60); i < n; i++ {
+			k, ch := vlib.Pick(r, keys[:r.Range(2, len(keys))]), r.Bool()
+			ks, _ := coqStr(k)
+			if r.Chance(2, 5) {
+				f := vlib.Pick(r, ratios)
+				cache.Set(k, ch, f)
+				ops = append(ops, fmt.Sprintf("RSet %s %s %s", ks, vlib.Bool(ch), vlib.Q32(float32(f))))
+				trace = append(trace, fmt.Sprintf("Set(%q, isCh=%v, %v)", k, ch, f))
+			} else {
+				f, ok := cache.Get(k, ch)
+				ops = append(ops, fmt.Sprintf("RGet %s %s %s %s", ks, vlib.Bool(ch), vlib.Bool(ok), vlib.Q32(float32(f))))
+				trace = append(trace, fmt.Sprintf("Get(%q, isCh=%v) = %v, %v", k, ch, f, ok))
+			}
+		}
+		w.Add(vlib.Case{Kind: "ratio-cache", Coq: "CRatio " + vlib.List(ops), Desc: map[string]interface{}{"TextRatioCache": trace},
+			Tags: []string{"ratio-cache"}, Nontrivial: true, Key: fmt.Sprintf("ratio/%d/%d", vlib.Seed(), c)})
+	}
+}
+
 // ---------------------------------------------------------------- main
 
 type job struct {
@@ -866,6 +1215,7 @@ func main() {
 	defer w.Close()
 
 	tableCases(w)
+	ratioCases(w, rng.Fork())
 
 	var inputs []string
 	var jobs []job
